@@ -184,6 +184,11 @@ func c19NonMagic(c *Ctx, i int64) {
 	for b := 0; b < 32; b++ {
 		words = append(words, ref.MagicFrame^(1<<uint(b)), ref.MagicLegacy^(1<<uint(b)))
 	}
+	// every word sharing the upper three bytes with one of the magics (incl. the 240 words
+	// 0x184D2Axx that are NOT skippable magics)
+	for x := uint32(0); x < 256; x++ {
+		words = append(words, ref.MagicFrame&^0xFF|x, ref.MagicLegacy&^0xFF|x, ref.MagicSkip&^0xFF|x)
+	}
 	n := 4000
 	if c.Tier == "thorough" {
 		n = 100000
@@ -193,8 +198,8 @@ func c19NonMagic(c *Ctx, i int64) {
 	}
 	tested := int64(0)
 	for _, w := range words {
-		if w == ref.MagicFrame || w == ref.MagicLegacy || w>>8 == ref.MagicSkip>>8 {
-			continue // magics (the skippable range is C07's subject)
+		if w == ref.MagicFrame || w == ref.MagicLegacy || w>>4 == ref.MagicSkip>>4 {
+			continue // the magics themselves (skipping of the 16 skippable ones is C07's subject)
 		}
 		in := binary.LittleEndian.AppendUint32(nil, w)
 		in = append(in, 0x64, 0x40, 0xA7, 0, 0, 0, 0, 0, 0, 0, 0)
